@@ -336,3 +336,97 @@ def check_iterator_write_sets(ctx, res, config="all"):
     if n < 2:
         res.fail(Finding("R9-anchor-lost", "U32Digits-writers", "next/next_back of U32Digits not found", file="src/biguint/iter.rs", line=0))
     res.clause("R9: U32Digits::next and ::next_back both update data, next_is_lo and last_hi_is_zero")
+
+
+# ------------------------------------------------------------------------------------------
+# R9-float: every digit reaches the float conversion
+
+
+def _fwd_taint(b, seeds):
+    """locals computed (flow-insensitively) from the seed locals"""
+    tainted = set(seeds)
+    changed = True
+    while changed:
+        changed = False
+        for j, sj, s2 in b.stmts():
+            if s2["k"] != "assign" or s2["place"]["local"] in tainted:
+                continue
+            used = [(core.op_place(o) or {}).get("local") for o in core.rv_operands(s2["rv"])]
+            if isinstance(s2["rv"].get("place"), dict):
+                used.append(s2["rv"]["place"].get("local"))
+            if any(l in tainted for l in used):
+                tainted.add(s2["place"]["local"])
+                changed = True
+        for j, t2 in b.calls():
+            d = t2.get("dest")
+            if d is None or d["local"] in tainted:
+                continue
+            if any((core.op_place(a) or {}).get("local") in tainted for a in t2["args"]):
+                tainted.add(d["local"])
+                changed = True
+    return tainted
+
+
+def check_float_reads_every_digit(ctx, res, config="all"):
+    """to_f64/to_f32 are correctly rounded only if every digit below the 64 gathered bits can still set the sticky (round-to-odd)
+    bit.  In the digit loop of the conversion (helpers inlined) an exit before the iterator is exhausted is sound only when it
+    is decided by what was read (e.g. "the sticky bit is already set"); an exit decided by position alone ("64 bits gathered")
+    makes the unread digits irrelevant - two values that differ only there convert alike, one of them wrongly."""
+    from .tests import tests_of, fate
+
+    facts = ctx.facts(config)
+    n_loops = 0
+    found_fn = 0
+    for b0 in facts.bodies:
+        if b0.name not in ("to_f64", "to_f32") or "BigUint" not in (b0.self_ty or "") or b0.kind == "closure":
+            continue
+        found_fn += 1
+        n_here = 0
+        b = core.inline_private(facts, b0, depth=3, max_blocks=200)
+        live = b.live_blocks()
+        tl, atoms = tests_of(b)
+        for hi, ht in b.calls():
+            if hi not in live or core.callee_name(ht) not in ("next", "next_back"):
+                continue
+            rty = str((core.callee_fn(ht) or {}).get("args"))
+            if "Iter" not in rty or not any(w in rty for w in ("u64", "u32", "BigDigit")):
+                continue
+            # the loop of this header
+            fwd = b.reachable(hi)
+            loop = {x for x in fwd if hi in b.reachable(x)} if hi in {s for x in fwd for s in b.succ(x)} else set()
+            if not loop:
+                continue
+            n_loops += 1
+            n_here += 1
+            item = ht["dest"]["local"]
+            tainted = _fwd_taint(b, {item})
+            key = "%s|digit-loop#%d" % (b0.path, n_here - 1)
+            bad = None
+            for x in sorted(loop):
+                t = b.blocks[x]["term"]
+                if t["k"] != "switch":
+                    continue
+                for s in b.succ(x):
+                    if s in loop or hi in b.reachable(s):
+                        continue
+                    if fate(b, s) == "panic":
+                        continue
+                    dl = (core.op_place(t["discr"]) or {}).get("local")
+                    # the exhaustion exit: the switch on the discriminant of the iterator's own answer
+                    ds = b.defs().get(dl, []) if dl is not None else []
+                    if len(ds) == 1 and ds[0][0] == "assign" and ds[0][3]["rv"]["k"] == "discriminant" and ds[0][3]["rv"]["place"]["local"] == item:
+                        continue
+                    if dl in tainted:
+                        res.note("R9-float-readset: %s: the digit loop can stop early on a condition computed from the digits read so far (line %s) - accepted, not verified" % (key, t["span"]["line"]))
+                        continue
+                    bad = t
+            if bad is not None:
+                res.fail(Finding("R9-float-readset", key, "the digit loop of the float conversion can stop before the last digit on a condition that looks at no digit (line %s): the unread low digits can no longer set the round-to-odd bit, so values that differ only there convert to the same float - ties and near-ties round wrongly" % bad["span"]["line"], b0, bad["span"]["line"]))
+            else:
+                res.ok("R9-float-readset", key, {"loop_blocks": len(loop)})
+    if config == "all" and found_fn < 1:
+        res.fail(Finding("R9-anchor-lost", "to_f64", "no BigUint::to_f64/to_f32 found", file="src/biguint/convert.rs", line=0))
+    elif n_loops == 0:
+        res.note("R9-float-readset: no digit loop found in to_f64/to_f32 (helpers inlined) - the read set of the conversion is not decided")
+    res.count("float conversion digit loops", n_loops)
+    res.clause("R9-float: the digit loop of to_f64/to_f32 leaves before exhaustion only on a condition computed from the digits read (every digit can reach the sticky bit)")
